@@ -23,6 +23,16 @@ func (c *ClientChannel) receiveSessionFromServer(ctx context.Context) (*Session,
 		return nil, fmt.Errorf("receive session: %w", err)
 	}
 
+	if from := c.State(); ses.State.Step() < from.Step() {
+		// The server is not allowed to move the session backwards: fail the channel instead of
+		// letting the state machine panic on the regression.
+		c.setState(SessionStateFailed)
+		if c.transport.Connected() {
+			_ = c.transport.Close()
+		}
+		return nil, fmt.Errorf("receive session: invalid state transition from %v to %v", from, ses.State)
+	}
+
 	if ses.State == SessionStateEstablished {
 		c.localNode = ses.To
 		c.remoteNode = ses.From
